@@ -743,7 +743,7 @@ func (e *Enc) typeFactOr(v string, t types.Type, st *State) string {
 var purePkgs = map[string]bool{"strings": true, "strconv": true, "math": true, "unicode": true, "unicode/utf8": true, "math/bits": true, "path/filepath": true, "regexp": true, "net/url": true}
 
 // pureOnly: packages of which only the listed functions are pure (the others read the process state: cwd, environment)
-var pureOnly = map[string]map[string]bool{"path/filepath": {"Base": true, "Clean": true, "Dir": true, "Ext": true, "IsAbs": true, "Match": true, "Rel": true, "ToSlash": true, "FromSlash": true, "VolumeName": true},
+var pureOnly = map[string]map[string]bool{"path/filepath": {"Base": true, "Clean": true, "Dir": true, "Ext": true, "IsAbs": true, "Match": true, "Rel": true, "ToSlash": true, "FromSlash": true, "VolumeName": true, "SplitList": true},
 	"regexp": {"MatchString": true, "QuoteMeta": true},
 	"net/url": {"QueryEscape": true, "QueryUnescape": true, "PathEscape": true, "PathUnescape": true}}
 
